@@ -283,6 +283,7 @@ func c12CheckDecode(c c12DecCase) engine.Result {
 	rec := &c12Rec{res: &res}
 	panics := 0
 	var buf []byte
+	inbuf := make([]byte, 0, 260)
 	h := uint64(14695981039346656037)
 	for ti, tf := range times {
 		m.Seconds, m.Fraction = tf[0], tf[1]
@@ -302,7 +303,10 @@ func c12CheckDecode(c c12DecCase) engine.Result {
 			for _, rl := range resLens {
 				m.Reserved = c12Reserved(rl)
 				buf = ref.AppendEBP(buf, &m)
-				in := append([]byte(nil), buf...)
+				// every input of the case is decoded from the same memory (same address, often the same
+				// length, new contents); the previous decoded object is no longer used by then
+				inbuf = append(inbuf[:0], buf...)
+				in := inbuf
 				class, lenClass := fl, ""
 				if len(in)-2 >= 254 {
 					lenClass = ",data_field_length>=254"
